@@ -246,8 +246,10 @@ CHECKS["C13"] = dict(
         "with the reflection (both sides, in its regime); the residual of the mirrored problem is the mirrored residual "
         "(even quantities equal, odd ones negated) and the per-cell time step is reflection invariant, for convection, "
         "Burgers, shallow water and Euler with periodic, dirichlet, wall and inlet/outlet pairs exchanged (quick tier: "
-        "extrapol1/extrapol2 for all models, symbolic-kappa and MUSCL for the scalar models; thorough: all, where a few "
-        "Euler/extrapolk/MUSCL obligations remain undecided by the solvers). UNITS: for convection, Burgers, shallow water and "
+        "extrapol1/extrapol2 for all models, symbolic-kappa and MUSCL for the scalar models; thorough: every boundary pair and "
+        "small mesh for extrapol1/2/3 on the systems and for every reconstruction on the scalar models; NOT decided at the "
+        "operator level: Euler / shallow water with symbolic-kappa or MUSCL reconstructions -- beyond the solver budget, their "
+        "ingredients (limiter odd/symmetric, flux mirror, boundary mirror clauses) are decided at leaf level). UNITS: for convection, Burgers, shallow water and "
         "Euler 1-D, every registered flux, every reconstruction and limiter, every boundary pair (real bodies, abstract mesh, "
         "symbolic ncell, seam cells + generic cell): the symbolic residual of component k and the time step admit a "
         "dimensional typing derivation with the units Q_k/time and time, i.e. they are homogeneous of that degree in the "
